@@ -136,48 +136,7 @@ def run(R):
             R.viol("C02.scan.entry", "scan-entry", "the start-up scan does not index a file under (its key, the address of that key, the type of that record)", sc, sc.lines[0])
         R.inst("C02.scan.entry", "K6 flows-to", "index entry = (key, (address_of(key), type_of(decrypted record)))", len(fr) + len(ty), oka)
 
-    # (2c) a record file is always replaced whole (a shorter overwrite must not leave the old tail behind)
-    from flow import backward_calls
-    n = 0
-    okw = True
-    for b in F.item(NRS + "::put_verified"):
-        prep(b)
-        for blk in b.blocks:
-            t = blk["term"]
-            if t["k"] != "call" or blk["cleanup"]:
-                continue
-            nc = t["ncallee"] or ""
-            if nc in ("std::fs::write", "std::fs::File::create"):
-                n += 1
-            elif nc == "std::fs::OpenOptions::open":
-                n += 1
-                _, calls = backward_calls(b, op_local(t["args"][0]))
-                names = {}
-                for c in calls:
-                    cn = (c["ncallee"] or "").split("::")[-1]
-                    val = c["args"][1][1] if len(c["args"]) > 1 and c["args"][1][0] == "c" else None
-                    names[cn] = val
-                whole = names.get("truncate") == "true" or names.get("create_new") == "true"
-                writes = names.get("write") == "true" or names.get("append") == "true"
-                if writes and not whole:
-                    okw = False
-                    R.viol("C02.whole-file", "no-truncate", "put_verified opens the record file for writing without truncate(true): a shorter overwrite leaves the tail of the old "
-                           "version, which fails authentication after a restart (the completed write is lost) or is served mixed", b, t["l"])
-    if n < 1:
-        okw = False
-        R.viol("C02.whole-file", "writer-missing", "no file-writing call found in put_verified")
-    R.inst("C02.whole-file", "K1 forbidden-callee", "record files are replaced whole (fs::write / File::create / OpenOptions with truncate or create_new)", n, okw)
-
-    # (2d) file name ↔ key: generate_filename and get_data_from_filename are hex encode / decode of the key bytes
-    gf = R.body("C02.filename", NRS + "::generate_filename")
-    gd_ = R.body("C02.filename", NRS + "::get_data_from_filename")
-    if gf is not None and gd_ is not None:
-        enc = [c["ncallee"] for c in gf.calls if (c["ncallee"] or "").startswith("hex::")]
-        dec = [c["ncallee"] for c in gd_.calls if (c["ncallee"] or "").startswith("hex::")]
-        okf = enc == ["hex::encode"] and dec == ["hex::decode"]
-        if not okf:
-            R.viol("C02.filename", "name-codec", "record file names are written with %s but read back with %s" % (enc, dec), gf, gf.lines[0])
-        R.inst("C02.filename", "K7 table agreement", "file name = hex::encode(key); start-up scan reads it back with hex::decode", 2, okf, {"writer": enc, "reader": dec})
+    file_rules(R, "C02")
 
     # (3) index rebuilt from files
     wc = R.body("C02.rebuild", WITHCFG)
@@ -283,3 +242,59 @@ def wipe_rules(R):
     R.inst("C02.wipe.path", "K6 flows-to", "remove_dir_all(storage_dir_path)", len(rms), okp)
     R.who_may_call("C02.wipe.who", ["std::fs::remove_dir_all"], [WIPE], floor=1, ignore_crates=tuple(c for c in {b.crate for b in F.bodies.values()} if c != "ant_networking"),
                    descr="remove_dir_all in ant_networking only in the version-mismatch wipe")
+
+
+def file_rules(R, pfx="C02"):
+    """How a record's bytes and its file relate (shared with C01): the file is replaced whole on every write, and its name is the
+    injective hex encoding of the key, read back with hex::decode."""
+    F = R.F
+    # (2c) a record file is always replaced whole (a shorter overwrite must not leave the old tail behind)
+    from flow import backward_calls
+    n = 0
+    okw = True
+    for b in F.item(NRS + "::put_verified"):
+        prep(b)
+        for blk in b.blocks:
+            t = blk["term"]
+            if t["k"] != "call" or blk["cleanup"]:
+                continue
+            nc = t["ncallee"] or ""
+            if nc in ("std::fs::write", "std::fs::File::create"):
+                n += 1
+            elif nc == "std::fs::OpenOptions::open":
+                n += 1
+                _, calls = backward_calls(b, op_local(t["args"][0]))
+                names = {}
+                for c in calls:
+                    cn = (c["ncallee"] or "").split("::")[-1]
+                    val = c["args"][1][1] if len(c["args"]) > 1 and c["args"][1][0] == "c" else None
+                    names[cn] = val
+                whole = names.get("truncate") == "true" or names.get("create_new") == "true"
+                writes = names.get("write") == "true" or names.get("append") == "true"
+                if writes and not whole:
+                    okw = False
+                    R.viol(pfx + ".whole-file", "no-truncate", "put_verified opens the record file for writing without truncate(true): a shorter overwrite leaves the tail of the old "
+                           "version, which fails authentication after a restart (the completed write is lost) or is served mixed", b, t["l"])
+    if n < 1:
+        okw = False
+        R.viol(pfx + ".whole-file", "writer-missing", "no file-writing call found in put_verified")
+    R.inst(pfx + ".whole-file", "K1 forbidden-callee", "record files are replaced whole (fs::write / File::create / OpenOptions with truncate or create_new)", n, okw)
+
+    # (2d) file name ↔ key: generate_filename and get_data_from_filename are hex encode / decode of the key bytes
+    gf = R.body(pfx + ".filename", NRS + "::generate_filename")
+    gd_ = R.body(pfx + ".filename", NRS + "::get_data_from_filename")
+    if gf is not None and gd_ is not None:
+        enc = [c["ncallee"] for c in gf.calls if (c["ncallee"] or "").startswith("hex::")]
+        dec = [c["ncallee"] for c in gd_.calls if (c["ncallee"] or "").startswith("hex::")]
+        okf = enc == ["hex::encode"] and dec == ["hex::decode"]
+        # the name is the *whole* encoding: nothing shortens or rewrites the string after hex::encode (two keys must never share a file)
+        extra = [c["ncallee"] for c in gf.calls if not (c["ncallee"] or "").startswith("hex::") and not any(x in (c["ncallee"] or "") for x in ("AsRef", "as_ref", "Deref", "deref", "Borrow", "borrow"))]
+        prep(gf)
+        direct = any(blk["term"]["k"] == "call" and (blk["term"]["ncallee"] or "") == "hex::encode" and blk["term"]["d"] == [0] for blk in gf.blocks)
+        if extra or not direct:
+            okf = False
+            R.viol(pfx + ".filename", "name-not-injective", "generate_filename does not return hex::encode(key) unchanged (%s): distinct keys can map to one file" % (extra[:2] or "result post-processed"), gf, gf.lines[0])
+        if not okf:
+            R.viol(pfx + ".filename", "name-codec", "record file names are written with %s but read back with %s" % (enc, dec), gf, gf.lines[0])
+        R.inst(pfx + ".filename", "K7 table agreement", "file name = hex::encode(key); start-up scan reads it back with hex::decode", 2, okf, {"writer": enc, "reader": dec})
+
